@@ -33,6 +33,7 @@ fn fp_name(f: RFp) -> &'static str {
         RFp::MisplacedWrongLen => "misplaced",
         RFp::BadThenDecoy => "wrong-then-decoy",
         RFp::BadThenSecondFp => "wrong-then-second-fingerprint",
+        RFp::ValueOfPrevious => "value-of-the-previous-message",
     }
 }
 
@@ -84,7 +85,8 @@ impl Monitor for Mon {
                 // a good reply still completes the request (it stayed outstanding through the rejected ones)
                 let awaiting_before = finals_before.get(*i).copied().unwrap_or(1) == 0;
                 // (long-term: only the 401 challenge is acceptable in every state)
-                let judge = !matches!(w.cfg.mech, Mech::LongTerm) || reply.class == RClass::Error(401);
+                // (a reply whose FINGERPRINT is right but whose integrity is wrong is the mechanism's business, not judged here)
+                let judge = (!matches!(w.cfg.mech, Mech::LongTerm) || reply.class == RClass::Error(401)) && !matches!(reply.mac, RMac::BadMi | RMac::BadSha | RMac::MiOtherPass | RMac::ShaOtherPass);
                 if awaiting_before && reply.class != RClass::Indication && judge {
                     if !new_final {
                         rep.violate("client/good-reply-with-valid-fingerprint-does-not-complete", format!("{:?}", st.obs.res), replay());
@@ -116,9 +118,17 @@ impl Monitor for Mon {
                 }
             }
         }
+        // short-term, unreliable: a response with a right FINGERPRINT and a wrong MAC is ignored and leaves the request
+        // outstanding - whatever the client remembers of it must not help a later message
+        if matches!(w.cfg.mech, Mech::ShortTerm(_)) && !w.cfg.reliable() {
+            for i in w.awaiting() {
+                let wrong = if matches!(w.cfg.mech, Mech::ShortTerm(Some(true))) { RMac::BadSha } else { RMac::BadMi };
+                v.push(Event::Deliver { to: Target::Req(i), reply: Reply::plain(RClass::Success).with_mac(wrong).with_fp(RFp::Valid) });
+            }
+        }
         for i in w.awaiting() {
             for r in base_replies(&w.cfg) {
-                for f in [RFp::Valid, RFp::Bad, RFp::Absent, RFp::MisplacedWrongLen, RFp::BadThenDecoy, RFp::BadThenSecondFp] {
+                for f in [RFp::Valid, RFp::Bad, RFp::Absent, RFp::MisplacedWrongLen, RFp::BadThenDecoy, RFp::BadThenSecondFp, RFp::ValueOfPrevious] {
                     v.push(Event::Deliver { to: Target::Req(i), reply: r.with_fp(f) });
                 }
             }
@@ -129,7 +139,7 @@ impl Monitor for Mon {
                 Mech::ShortTerm(_) => RMac::Mi,
                 _ => RMac::None,
             };
-            for f in [RFp::Valid, RFp::Bad, RFp::Absent, RFp::MisplacedWrongLen, RFp::BadThenDecoy, RFp::BadThenSecondFp] {
+            for f in [RFp::Valid, RFp::Bad, RFp::Absent, RFp::MisplacedWrongLen, RFp::BadThenDecoy, RFp::BadThenSecondFp, RFp::ValueOfPrevious] {
                 v.push(Event::Deliver { to: Target::Unknown, reply: Reply::plain(RClass::Indication).with_mac(mac).with_fp(f) });
             }
         }
@@ -214,6 +224,6 @@ pub fn run(ctx: &RunCtx, rep: &mut Report) {
     rep.extra.insert(
         "client".into(),
         json!({"engine": "E3 breadth-first exploration of fingerprint-enforcing clients (none / short-term / long-term x both transports)", "depth": depth, "states": states, "transitions": transitions, "per_config": per,
-               "alphabet": "Send, Indicate, Timer, AdvanceTo, Deliver(each awaiting request x accepted reply kinds of the mechanism x FINGERPRINT {valid, one bit wrong, absent, misplaced before the last attribute with the CRC over the unadjusted length, wrong and followed by a decoy attribute whose value reads like a matching FINGERPRINT TLV, wrong and followed by a second FINGERPRINT that is right for its own position}), Deliver(indication x the 6 FINGERPRINT kinds)"}),
+               "alphabet": "Send, Indicate, Timer, AdvanceTo, Deliver(each awaiting request x accepted reply kinds of the mechanism x FINGERPRINT {valid, one bit wrong, absent, misplaced before the last attribute with the CRC over the unadjusted length, wrong and followed by a decoy attribute whose value reads like a matching FINGERPRINT TLV, wrong and followed by a second FINGERPRINT that is right for its own position, carrying the FINGERPRINT value of the buffer delivered just before}), Deliver(a response with a right FINGERPRINT and a wrong MAC, short-term on unreliable transport), Deliver(indication x the 7 FINGERPRINT kinds)"}),
     );
 }
